@@ -186,6 +186,8 @@ def build_recurse(f, trace):
 def build_tile(f, trace):
     q = 'Worker::render_tile'
     f = sub_re(f, r'\bself\.tile_sizes\[0\]', '*self.tile_sizes.index(0)', q, 1, trace, 'R-index')
+    f, n_ = re.subn(r'\bself\.out\[', 'self.out.data[', f)   # R-imgindex (none in the pinned text; an edit may add one)
+    trace.fire('R-imgindex', n_)
     f = sub_once(f, 'self.out = Image::new(RenderSize::from(root_tile_size as u32));', 'self.out = Image::new(voxel_size_from(root_tile_size as u32));   // R-from', q)
     trace.fire('R-from')
     m = re.search(r'( *)for k in \(0\.\.self\.image_size\[2\]\.div_ceil\(root_tile_size as u32\)\)\.rev\(\) \{\n', f)
